@@ -28,6 +28,7 @@ func init() {
 			ruleDaemonLog(r)
 			ruleErrSticky(r, []string{dockerlogPkg, enginePkg, metricPkg, itersPkg, lexerPkg}, 1)
 			rulePFDeferNil(r, []string{enginePkg, metricPkg, dockerlogPkg, cmdPkg})
+			ruleResultKindSet(r)
 		},
 	})
 }
